@@ -142,3 +142,24 @@ func VC12Map(tbl, op int) {
 	cpu.Step()
 	vAssert("returned", true)
 }
+
+// A history of unsupported encodings on one CPU: twelve distinct ones, then the
+// first two again.  Whatever the emulator keeps about codes it has warned
+// about, every Step returns normally and consumes the encoding.
+func VC12Hist(tbl, o0, o1, o2, o3, o4, o5, o6, o7, o8, o9, o10, o11 int) {
+	ops := [14]int{o0, o1, o2, o3, o4, o5, o6, o7, o8, o9, o10, o11, o0, o1}
+	var s States
+	vHavoc(&s, "s")
+	bus := vNewBus("bus")
+	cpu := &CPU{States: s, Memory: bus, IO: bus}
+	for i := 0; i < 14; i++ {
+		pc := cpu.PC
+		vPlace(bus, pc, tbl, ops[i])
+		cpu.Step()
+		n := uint16(2)
+		if tbl >= 5 {
+			n = 4
+		}
+		vAssert("consumed", cpu.PC == pc+n)
+	}
+}
